@@ -21,10 +21,11 @@ ASSUMPTION: 64-bit platform (GOARCH with 64-bit int, e.g. amd64/arm64).  Semanti
   Slices are values: the translator only accepts functions in which no sharing of backing arrays can be
   observed (ownership discipline documented in cmd/extract/loops.go) and fails on everything else.
 * len(x) ↦ BitVec.ofNat 64 x.length (exact: Go lengths are below 2^63).
-* a[i] is accepted only where i is the key of an enclosing "for i := range a" and neither is reassigned, so
-  the index is in range by construction; it is rendered with the total List.getD / List.set.
-* Only executions that do not panic are described: a negative shift count or make length panics in Go and
-  is not modelled (the count is read with .toNat).
+* a[i] where i is the key of an enclosing "for i := range a" and neither is reassigned is in range by
+  construction; it is rendered with the total List.getD / List.set.  (Any other index expression makes the
+  function Option-valued: see the additional semantics in the files that contain such functions.)
+* In a function with a plain (non-Option) result only executions that do not panic are described: a negative
+  shift count or make length panics in Go and is not modelled (the count is read with .toNat).
 * "for _, v := range xs" is List.foldl over xs; "for i := range xs" is List.foldl over the indices
   0 … len-1 as BitVec 64; the loop state is the tuple of the variables assigned in the body and declared
   outside it.  "if c { x = e }" is "let x := if c then e else x".
@@ -34,7 +35,7 @@ ASSUMPTION: 64-bit platform (GOARCH with 64-bit int, e.g. amd64/arm64).  Semanti
 // translateLoopFuncs translates the named functions of p, in the given order (callees first),
 // preceded by the package variables they read.
 func translateLoopFuncs(p *pkg, names ...string) string {
-	set := &loopSet{p: p, tp: typeCheck(p), done: map[string]bool{}, all: map[string]bool{}, varText: map[*types.Var]string{}}
+	set := &loopSet{p: p, tp: typeCheck(p), done: map[string]bool{}, flowFns: map[string]bool{}, all: map[string]bool{}, varText: map[*types.Var]string{}}
 	for _, n := range names {
 		set.all[n] = true
 	}
@@ -55,7 +56,8 @@ func translateLoopFuncs(p *pkg, names ...string) string {
 
 func (s *loopSet) translate(name string) string {
 	fd := s.p.funcDecl(name)
-	t := &loopTr{set: s, p: s.p, info: s.tp.info, fd: fd, vars: map[types.Object]string{}, params: map[types.Object]bool{}}
+	t := &loopTr{set: s, p: s.p, info: s.tp.info, fd: fd, vars: map[types.Object]string{}, params: map[types.Object]bool{},
+		safe: map[*ast.IndexExpr]bool{}, pairBuf: map[types.Object]bool{}}
 	if fd.Recv != nil || fd.Type.TypeParams != nil || fd.Body == nil {
 		t.fail(fd, "methods, generic functions and bodyless functions are not supported")
 	}
@@ -92,7 +94,7 @@ func (s *loopSet) translate(name string) string {
 				t.fail(id, "two variables called %s in nested scopes (shadowing is not supported)", id.Name)
 			}
 		}
-		if leanReserved[id.Name] || strings.HasPrefix(id.Name, "st_") || strings.HasPrefix(id.Name, "var_") || s.all[id.Name] {
+		if leanReserved[id.Name] || strings.HasPrefix(id.Name, "st_") || strings.HasPrefix(id.Name, "var_") || s.all[id.Name] || id.Name == "nil" {
 			t.fail(id, "variable name %s clashes with a name used by the generated Lean text", id.Name)
 		}
 		byName[id.Name] = append(byName[id.Name], o)
@@ -131,21 +133,65 @@ func (s *loopSet) translate(name string) string {
 		}
 		return true
 	})
-	body := t.block(fd.Body.List, "  ", true, func(string) string {
+	t.findOutBufs()
+	for _, o := range t.outBufs {
+		rt = append(rt, t.kindOf(o.Type(), fd).lean())
+	}
+	t.retTy = strings.Join(rt, " × ")
+	t.classify()
+	t.flowFn = t.needsFlow(fd.Body, false) || !t.pureTailOK(fd.Body.List)
+	body := t.block(fd.Body.List, "  ", blockMode{flow: t.flowFn, tail: true}, func(string) string {
 		t.fail(fd, "function falls off the end")
 		return ""
 	})
-	return fmt.Sprintf("/-- translated (loops) from `%s` in %s -/\ndef %s %s : %s :=\n%s\n",
-		name, rel(s.p.dir), name, strings.Join(params, " "), strings.Join(rt, " × "), body)
+	for i := len(t.outBufs) - 1; i >= 0; i-- {
+		if o := t.outBufs[i]; t.pairBuf[o] {
+			lt := t.kindOf(o.Type(), fd).lean()
+			body = fmt.Sprintf("  let %s : %s := (([] : %s), %s)\n%s", t.vars[o], t.objType(o), lt, t.vars[o], body)
+		}
+	}
+	doc := fmt.Sprintf("translated (loops) from `%s` in %s", name, rel(s.p.dir))
+	if len(t.outBufs) > 0 {
+		var ns []string
+		for _, o := range t.outBufs {
+			ns = append(ns, "`"+t.vars[o]+"`")
+		}
+		doc += "; the function writes into the array of " + strings.Join(ns, ", ") + ": the last component" +
+			map[bool]string{true: "s", false: ""}[len(ns) > 1] + " of the result is the content of that array (the whole slice that was passed) on return"
+	}
+	if t.flowFn {
+		doc += "; none = run-time panic"
+		s.flowFns[name] = true
+		return fmt.Sprintf("/-- %s -/\ndef %s %s : Option (%s) :=\n  Go.Flow.result (\n%s)\n",
+			doc, name, strings.Join(params, " "), t.retTy, body)
+	}
+	if len(t.outBufs) > 0 {
+		s.flowFns[name] = true
+	}
+	return fmt.Sprintf("/-- %s -/\ndef %s %s : %s :=\n%s\n",
+		doc, name, strings.Join(params, " "), t.retTy, body)
 }
 
 // ---------------------------------------------------------------- statements
 
 type binding struct {
-	name string
-	kind lkind
-	val  string
+	name   string // "" : no variable is bound (bounds-check hint `_ = x[c]`)
+	kind   lkind
+	val    string
+	ty     string   // Lean type when it is not kind.lean()
+	checks []string // bounds checks to be made before the binding
 }
+
+func (b binding) leanType() string {
+	if b.ty != "" {
+		return b.ty
+	}
+	return b.kind.lean()
+}
+
+// blockMode: flow = the statement list is built as a Go.Flow (return and panics allowed anywhere);
+// otherwise tail = the list is in tail position of a function built as a plain value, so `return` is allowed.
+type blockMode struct{ flow, tail bool }
 
 func (t *loopTr) freshName() string {
 	t.fresh++
@@ -163,13 +209,25 @@ func proj(name string, i, n int) string {
 	return s
 }
 
+// objType is the Lean type of the variable for o.
+func (t *loopTr) objType(o types.Object) string {
+	k := t.kindOf(o.Type(), t.fd).lean()
+	if t.pairBuf[o] {
+		return "(" + k + " × " + k + ")"
+	}
+	return k
+}
+
 func (t *loopTr) tuple(objs []types.Object) (expr, ty string) {
 	var ns, ts []string
 	for _, o := range objs {
 		ns = append(ns, t.vars[o])
-		ts = append(ts, t.kindOf(o.Type(), t.fd).lean())
+		ts = append(ts, t.objType(o))
 	}
-	if len(objs) == 1 {
+	switch len(objs) {
+	case 0:
+		return "()", "Unit"
+	case 1:
 		return ns[0], ts[0]
 	}
 	return "(" + strings.Join(ns, ", ") + ")", strings.Join(ts, " × ")
@@ -177,12 +235,12 @@ func (t *loopTr) tuple(objs []types.Object) (expr, ty string) {
 
 // unpack renders `let v1 := st.1 …` for a tuple-valued name (nothing for a single variable).
 func (t *loopTr) unpack(ind, st string, objs []types.Object) string {
-	if len(objs) == 1 {
+	if len(objs) <= 1 {
 		return ""
 	}
 	var b strings.Builder
 	for i, o := range objs {
-		fmt.Fprintf(&b, "%slet %s : %s := %s\n", ind, t.vars[o], t.kindOf(o.Type(), t.fd).lean(), proj(st, i, len(objs)))
+		fmt.Fprintf(&b, "%slet %s : %s := %s\n", ind, t.vars[o], t.objType(o), proj(st, i, len(objs)))
 	}
 	return b.String()
 }
@@ -195,20 +253,19 @@ func let(ind, name, ty, val, rest string) string {
 	return fmt.Sprintf("%slet %s : %s := %s\n%s", ind, name, ty, val, rest)
 }
 
-// block translates the statement list; k renders what follows it.  tail: the list is in tail
-// position of the function, so `return` is allowed.
-func (t *loopTr) block(list []ast.Stmt, ind string, tail bool, k func(ind string) string) string {
+// block translates the statement list; k renders what follows it.
+func (t *loopTr) block(list []ast.Stmt, ind string, m blockMode, k func(ind string) string) string {
 	if len(list) == 0 {
 		return k(ind)
 	}
-	rest := func(ind string) string { return t.block(list[1:], ind, tail, k) }
+	rest := func(ind string) string { return t.block(list[1:], ind, m, k) }
 	switch s := list[0].(type) {
 	case *ast.EmptyStmt:
 		return rest(ind)
 	case *ast.BlockStmt:
-		return t.block(append(append([]ast.Stmt{}, s.List...), list[1:]...), ind, tail, k)
+		return t.block(append(append([]ast.Stmt{}, s.List...), list[1:]...), ind, m, k)
 	case *ast.ReturnStmt:
-		if !tail {
+		if !m.flow && !m.tail {
 			t.fail(s, "return inside a loop or a conditional that is not in tail position")
 		}
 		if len(list) > 1 {
@@ -232,26 +289,56 @@ func (t *loopTr) block(list []ast.Stmt, ind string, tail bool, k func(ind string
 			}
 			vals = append(vals, v)
 		}
-		if len(vals) == 1 {
-			return ind + vals[0]
+		for _, o := range t.outBufs {
+			if t.pairBuf[o] {
+				vals = append(vals, "("+t.vars[o]+".1 ++ "+t.vars[o]+".2)")
+			} else {
+				vals = append(vals, t.vars[o])
+			}
 		}
-		return ind + "(" + strings.Join(vals, ", ") + ")"
+		val := vals[0]
+		if len(vals) > 1 {
+			val = "(" + strings.Join(vals, ", ") + ")"
+		}
+		if m.flow {
+			return t.guards(s, ind, m) + ind + "Go.Flow.done " + atom(val)
+		}
+		t.guards(s, ind, m)
+		return ind + val
 	case *ast.AssignStmt, *ast.IncDecStmt, *ast.DeclStmt:
 		bs := t.simple(s)
+		if len(t.checks) != 0 {
+			t.fail(s, "internal error: unattributed bounds checks")
+		}
 		out := rest(ind)
 		for i := len(bs) - 1; i >= 0; i-- {
-			out = let(ind, bs[i].name, bs[i].kind.lean(), bs[i].val, out)
+			if bs[i].name != "" {
+				out = let(ind, bs[i].name, bs[i].leanType(), bs[i].val, out)
+			}
+			t.checks = bs[i].checks
+			out = t.guards(s, ind, m) + out
 		}
 		return out
 	case *ast.IfStmt:
-		return t.ifStmt(s, ind, tail, rest)
+		return t.ifStmt(s, ind, m, rest)
 	case *ast.RangeStmt:
-		return t.rangeStmt(s, ind, rest)
+		return t.rangeStmt(s, ind, m, rest)
 	case *ast.ForStmt:
-		t.fail(s, "only `for … := range …` loops are supported")
+		if s.Init == nil && s.Post == nil {
+			return t.whileStmt(s, ind, m, rest)
+		}
+		return t.forStmt(s, ind, m, rest)
 	}
 	t.fail(list[0], "unsupported statement %s (%T)", t.p.src(list[0]), list[0])
 	return ""
+}
+
+// atom parenthesises a text that is not obviously a single term.
+func atom(s string) string {
+	if strings.HasPrefix(s, "(") || !strings.ContainsAny(s, " \n") {
+		return s
+	}
+	return "(" + s + ")"
 }
 
 var assignOps = map[token.Token]token.Token{
@@ -266,11 +353,18 @@ func (t *loopTr) localVar(id *ast.Ident) (types.Object, string, lkind) {
 	if !ok || id.Name == "_" {
 		t.fail(id, "assignment to %s, which is not a local variable", id.Name)
 	}
+	if _, isArr := arrayLen(o.Type()); isArr {
+		t.fail(id, "assignment to the array pointer %s", id.Name)
+	}
 	return o, name, t.kindOf(o.Type(), id)
 }
 
-// simple translates an assignment-like statement into let-bindings.
+// simple translates an assignment-like statement into let-bindings, each with the bounds checks
+// of the expressions it evaluates.
 func (t *loopTr) simple(st ast.Stmt) []binding {
+	bind := func(name string, k lkind, val string) []binding {
+		return []binding{{name: name, kind: k, val: val, checks: t.takeChecks()}}
+	}
 	switch s := st.(type) {
 	case *ast.IncDecStmt:
 		id, ok := unparen(s.X).(*ast.Ident)
@@ -285,7 +379,7 @@ func (t *loopTr) simple(st ast.Stmt) []binding {
 		if s.Tok == token.DEC {
 			op = "-"
 		}
-		return []binding{{name, k, fmt.Sprintf("(%s %s 1#%d)", name, op, k.width())}}
+		return bind(name, k, fmt.Sprintf("(%s %s 1#%d)", name, op, k.width()))
 	case *ast.DeclStmt:
 		gd, ok := s.Decl.(*ast.GenDecl)
 		if !ok || gd.Tok != token.VAR {
@@ -312,10 +406,12 @@ func (t *loopTr) simple(st ast.Stmt) []binding {
 					val = fmt.Sprintf("0#%d", k.width())
 				case k == kBool:
 					val = "false"
+				case k == kErr:
+					val = "none"
 				default:
 					val = "([] : " + k.lean() + ")"
 				}
-				bs = append(bs, binding{name, k, val})
+				bs = append(bs, bind(name, k, val)...)
 			}
 		}
 		return bs
@@ -323,8 +419,17 @@ func (t *loopTr) simple(st ast.Stmt) []binding {
 		if len(s.Lhs) != 1 || len(s.Rhs) != 1 {
 			t.fail(s, "multiple assignment is not supported")
 		}
+		if o, lo := t.resliceOf(s); o != nil {
+			return t.reslice(s, o, lo)
+		}
 		switch l := unparen(s.Lhs[0]).(type) {
 		case *ast.Ident:
+			if l.Name == "_" && s.Tok == token.ASSIGN {
+				// `_ = x[c]`: only the bounds check remains
+				t.noAlias(s.Rhs[0], "assignment")
+				t.expr(s.Rhs[0])
+				return bind("", 0, "")
+			}
 			o, name, k := t.localVar(l)
 			if s.Tok == token.DEFINE || s.Tok == token.ASSIGN {
 				t.noAlias(s.Rhs[0], "assignment")
@@ -343,34 +448,43 @@ func (t *loopTr) simple(st ast.Stmt) []binding {
 				if vk != k {
 					t.fail(s, "assignment of %s to %s", vk.lean(), k.lean())
 				}
-				return []binding{{name, k, v}}
+				if k.isSlice() && t.params[o] {
+					t.fail(s, "assignment to the slice parameter %s (only %s = %s[k:] is supported)", name, name, name)
+				}
+				return bind(name, k, v)
 			}
 			op, ok := assignOps[s.Tok]
 			if !ok {
 				t.fail(s, "unsupported assignment operator %s", s.Tok)
 			}
 			if op == token.SHL || op == token.SHR {
-				return []binding{{name, k, t.shift(s, op, name, k, s.Rhs[0])}}
+				return bind(name, k, t.shift(s, op, name, k, s.Rhs[0]))
 			}
 			b, bk := t.expr(s.Rhs[0])
 			v, _ := t.binop(s, op, name, k, b, bk)
-			return []binding{{name, k, v}}
+			return bind(name, k, v)
 		case *ast.IndexExpr:
 			if s.Tok != token.ASSIGN {
 				t.fail(s, "only plain assignment to an element is supported")
 			}
-			a, i, ak := t.index(l)
-			o := t.info.Uses[unparen(l.X).(*ast.Ident)]
+			a, i, ak, o := t.index(l)
 			f := t.facts
-			_, local := t.vars[o]
-			if !local || t.params[o] || len(f.defs[o]) != 1 || f.plain[o] != 0 || !t.isMake(f.defs[o][0]) {
-				t.fail(s, "index assignment to `%s`, which is not a local slice created once by make in this function (aliasing-sensitive)", a)
+			name, local := t.vars[o]
+			switch {
+			case t.isOutBuf(o):
+			case !local || t.params[o] || len(f.defs[o]) != 1 || f.plain[o] != 0 || !t.isMake(f.defs[o][0]):
+				t.fail(s, "index assignment to `%s`, which is not a local slice created once by make in this function (aliasing-sensitive)", name)
 			}
 			v, vk := t.expr(s.Rhs[0])
 			if vk != ak.elem() {
 				t.fail(s, "element type")
 			}
-			return []binding{{a, ak, fmt.Sprintf("(%s.set %s.toNat %s)", a, i, v)}}
+			if t.pairBuf[o] {
+				b := bind(name, ak, fmt.Sprintf("(%s.1, %s.set %s %s)", name, a, i, v))
+				b[0].ty = t.objType(o)
+				return b
+			}
+			return bind(name, ak, fmt.Sprintf("(%s.set %s %s)", a, i, v))
 		}
 	}
 	t.fail(st, "unsupported statement %s", t.p.src(st))
@@ -390,7 +504,16 @@ func (t *loopTr) isMake(e ast.Expr) bool {
 	return ok && b.Name() == "make"
 }
 
-func (t *loopTr) ifStmt(s *ast.IfStmt, ind string, tail bool, rest func(string) string) string {
+func endsWithReturn(b *ast.BlockStmt) bool {
+	n := len(b.List)
+	if n == 0 {
+		return false
+	}
+	_, ok := b.List[n-1].(*ast.ReturnStmt)
+	return ok
+}
+
+func (t *loopTr) ifStmt(s *ast.IfStmt, ind string, m blockMode, rest func(string) string) string {
 	if s.Init != nil {
 		t.fail(s, "if with an init statement is not supported")
 	}
@@ -398,30 +521,56 @@ func (t *loopTr) ifStmt(s *ast.IfStmt, ind string, tail bool, rest func(string) 
 	if ck != kBool {
 		t.fail(s.Cond, "condition is not a bool")
 	}
-	if hasReturn(s) {
-		n := len(s.Body.List)
-		if !tail || s.Else != nil || n == 0 {
+	pre := t.guards(s, ind, m)
+	unreachable := func(string) string {
+		t.fail(s, "internal error: continuation of a block that ends with return")
+		return ""
+	}
+	if !m.flow && hasReturn(s) {
+		if !m.tail || s.Else != nil || len(s.Body.List) == 0 {
 			t.fail(s, "a conditional containing return must be `if c { …; return e }` in tail position of the function")
 		}
-		if _, ok := s.Body.List[n-1].(*ast.ReturnStmt); !ok {
+		if !endsWithReturn(s.Body) {
 			t.fail(s, "a conditional containing return must end with it")
 		}
-		th := t.block(s.Body.List, ind+"  ", true, nil)
+		th := t.block(s.Body.List, ind+"  ", m, unreachable)
 		return fmt.Sprintf("%sif %s then\n%s\n%selse\n%s", ind, c, th, ind, rest(ind+"  "))
+	}
+	if m.flow && (t.needsFlow(s.Body, true) || (s.Else != nil && t.needsFlow(s.Else, true))) {
+		if s.Else == nil && endsWithReturn(s.Body) {
+			// `if c { …; return e }`: what follows is the else branch
+			th := t.block(s.Body.List, ind+"  ", m, unreachable)
+			return fmt.Sprintf("%s%sif %s then\n%s\n%selse\n%s", pre, ind, c, th, ind, rest(ind))
+		}
+		objs := t.stateOf(s, s)
+		tup, ty := t.tuple(objs)
+		ret := func(ind string) string { return ind + "Go.Flow.run " + tup }
+		th := t.block(s.Body.List, ind+"    ", m, ret)
+		el := ret(ind + "    ")
+		switch e := s.Else.(type) {
+		case *ast.BlockStmt:
+			el = t.block(e.List, ind+"    ", m, ret)
+		case *ast.IfStmt:
+			el = t.block([]ast.Stmt{e}, ind+"    ", m, ret)
+		}
+		st := t.stateName(objs)
+		return fmt.Sprintf("%s%sGo.Flow.bind (if %s then\n%s\n%s  else\n%s) (fun (%s : %s) =>\n%s%s)",
+			pre, ind, c, th, ind, el, st, ty, t.unpack(ind, st, objs), rest(ind))
 	}
 	objs := t.stateOf(s, s)
 	if len(objs) == 0 {
 		t.fail(s, "conditional without effect")
 	}
 	tup, ty := t.tuple(objs)
+	pm := blockMode{}
 	ret := func(ind string) string { return ind + tup }
-	th := t.block(s.Body.List, ind+"    ", false, ret)
+	th := t.block(s.Body.List, ind+"    ", pm, ret)
 	el := ind + "    " + tup
 	switch e := s.Else.(type) {
 	case *ast.BlockStmt:
-		el = t.block(e.List, ind+"    ", false, ret)
+		el = t.block(e.List, ind+"    ", pm, ret)
 	case *ast.IfStmt:
-		el = t.block([]ast.Stmt{e}, ind+"    ", false, ret)
+		el = t.block([]ast.Stmt{e}, ind+"    ", pm, ret)
 	}
 	var val string
 	if !strings.Contains(th, "\n") && !strings.Contains(el, "\n") {
@@ -430,13 +579,36 @@ func (t *loopTr) ifStmt(s *ast.IfStmt, ind string, tail bool, rest func(string) 
 		val = fmt.Sprintf("if %s then\n%s\n%s  else\n%s", c, th, ind, el)
 	}
 	if len(objs) == 1 {
-		return let(ind, tup, ty, val, rest(ind))
+		return pre + let(ind, tup, ty, val, rest(ind))
 	}
 	st := t.freshName()
-	return fmt.Sprintf("%slet %s : %s := %s\n%s%s", ind, st, ty, val, t.unpack(ind, st, objs), rest(ind))
+	return fmt.Sprintf("%s%slet %s : %s := %s\n%s%s", pre, ind, st, ty, val, t.unpack(ind, st, objs), rest(ind))
 }
 
-func (t *loopTr) rangeStmt(s *ast.RangeStmt, ind string, rest func(string) string) string {
+// stateName is the name bound to the state tuple of objs.
+func (t *loopTr) stateName(objs []types.Object) string {
+	switch len(objs) {
+	case 0:
+		return "_"
+	case 1:
+		return t.vars[objs[0]]
+	}
+	return t.freshName()
+}
+
+func (t *loopTr) rangeCtx(s *ast.RangeStmt) *loopCtx {
+	plain, indexed := t.assignedIn(s.Body)
+	ctx := &loopCtx{plain: plain, indexed: indexed}
+	if id, ok := s.Key.(*ast.Ident); ok && id.Name != "_" && s.Tok == token.DEFINE {
+		ctx.key = t.info.Defs[id]
+	}
+	if id, ok := unparen(s.X).(*ast.Ident); ok {
+		ctx.rng = t.info.Uses[id]
+	}
+	return ctx
+}
+
+func (t *loopTr) rangeStmt(s *ast.RangeStmt, ind string, m blockMode, rest func(string) string) string {
 	ident := func(e ast.Expr) *ast.Ident {
 		if e == nil {
 			return nil
@@ -454,18 +626,11 @@ func (t *loopTr) rangeStmt(s *ast.RangeStmt, ind string, rest func(string) strin
 	if key != nil && val != nil {
 		t.fail(s, "range with both key and value is not supported")
 	}
-	plain, indexed := t.assignedIn(s.Body)
-	ctx := &loopCtx{plain: plain, indexed: indexed}
-	if key != nil {
-		ctx.key = t.info.Defs[key]
-	}
-	if id, ok := unparen(s.X).(*ast.Ident); ok {
-		ctx.rng = t.info.Uses[id]
-	}
+	ctx := t.rangeCtx(s)
 	if val != nil {
 		ast.Inspect(s.X, func(n ast.Node) bool {
 			if id, ok := n.(*ast.Ident); ok {
-				if o := t.info.Uses[id]; o != nil && (plain[o] || indexed[o]) {
+				if o := t.info.Uses[id]; o != nil && (ctx.plain[o] || ctx.indexed[o]) {
 					t.fail(s, "the loop body assigns `%s`, over which it ranges by value", id.Name)
 				}
 			}
@@ -491,22 +656,32 @@ func (t *loopTr) rangeStmt(s *ast.RangeStmt, ind string, rest func(string) strin
 		}
 		binder = fmt.Sprintf("(%s : BitVec 64)", n)
 	}
-	objs := t.stateOf(s.Body, s)
+	return t.loopOver(s, s.Body, list, binder, ind, m, rest)
+}
+
+// loopOver renders a loop whose body is run for the elements of `list` (bound by `binder`) in order.
+func (t *loopTr) loopOver(s ast.Node, body *ast.BlockStmt, list, binder, ind string, m blockMode, rest func(string) string) string {
+	pre := t.guards(s, ind, m)
+	objs := t.stateOf(body, s)
+	tup, ty := t.tuple(objs)
+	in := ind + "    "
+	if m.flow && t.needsFlow(body, true) {
+		st := t.stateName(objs)
+		b := t.unpack(in, st, objs) + t.block(body.List, in, m, func(ind string) string { return ind + "Go.Flow.run " + tup })
+		return fmt.Sprintf("%s%sGo.Flow.bind (Go.forIn %s %s (fun (%s : %s) %s =>\n%s)) (fun (%s : %s) =>\n%s%s)",
+			pre, ind, list, tup, st, ty, binder, b, st, ty, t.unpack(ind, st, objs), rest(ind))
+	}
 	if len(objs) == 0 {
 		t.fail(s, "loop without effect: its body assigns no variable declared outside it")
 	}
-	tup, ty := t.tuple(objs)
 	st := tup
 	if len(objs) > 1 {
 		st = t.freshName()
 	}
-	t.loops = append(t.loops, ctx)
-	in := ind + "    "
-	body := t.unpack(in, st, objs) + t.block(s.Body.List, in, false, func(ind string) string { return ind + tup })
-	t.loops = t.loops[:len(t.loops)-1]
-	fold := fmt.Sprintf("List.foldl (fun (%s : %s) %s =>\n%s) %s %s", st, ty, binder, body, tup, list)
+	b := t.unpack(in, st, objs) + t.block(body.List, in, blockMode{}, func(ind string) string { return ind + tup })
+	fold := fmt.Sprintf("List.foldl (fun (%s : %s) %s =>\n%s) %s %s", st, ty, binder, b, tup, list)
 	if len(objs) == 1 {
-		return let(ind, tup, ty, fold, rest(ind))
+		return pre + let(ind, tup, ty, fold, rest(ind))
 	}
-	return fmt.Sprintf("%slet %s : %s := %s\n%s%s", ind, st, ty, fold, t.unpack(ind, st, objs), rest(ind))
+	return fmt.Sprintf("%s%slet %s : %s := %s\n%s%s", pre, ind, st, ty, fold, t.unpack(ind, st, objs), rest(ind))
 }
